@@ -27,11 +27,16 @@ func init() {
 				return 400000
 			}
 			return 12000
+		}}, {Name: "through_vertex", NumCases: func(t string) int {
+			if t == "thorough" {
+				return 200000
+			}
+			return 20000
 		}}},
 		Run: run,
 		Floors: func(t string) map[string]int64 {
 			return map[string]int64{"cfg.entirely_inside": 100, "cfg.entirely_outside_bbox_overlap": 100, "cfg.entirely_outside_bbox_disjoint": 100, "cfg.crosses_hole": 100, "cfg.enters_several_times": 200, "cfg.two_vertex_line": 100,
-				"recv.MultiLineString": 300, "arg.*Bounds": 100, "arg.MultiPolygon": 300, "arg.Polygon": 300, "result.vertices_checked": 5000, "line.long": 100, "line.axis_parallel": 500, "line.all_vertices_in_one_hole": 300, "line.vertices_around_one_hole": 300, "line.long_approach>=511": 150, "line.members_close_a_loop": 100, "line.loop_with_a_member_ending_at_a_junction": 40, "line.members_share_an_end_point": 100, "storage.paths_share_one_backing_array": 500}
+				"recv.MultiLineString": 300, "arg.*Bounds": 100, "arg.MultiPolygon": 300, "arg.Polygon": 300, "result.vertices_checked": 5000, "line.long": 100, "line.axis_parallel": 500, "line.all_vertices_in_one_hole": 300, "line.vertices_around_one_hole": 300, "line.long_approach>=511": 150, "line.members_close_a_loop": 100, "line.loop_with_a_member_ending_at_a_junction": 40, "through_vertex.cases": 10000, "through_vertex.line_enters_the_polygon": 3000, "line.members_share_an_end_point": 100, "storage.paths_share_one_backing_array": 500}
 		},
 	})
 }
@@ -160,6 +165,10 @@ func distToLines(p exact.P, lines [][]geom.Point) float64 {
 var polyKinds = []string{"star", "starholes", "starholes", "comb", "stair", "multi", "box", "nested"}
 
 func run(c *core.Ctx, idx int) {
+	if c.Phase == "through_vertex" {
+		runThroughVertex(c)
+		return
+	}
 	r := c.R
 	scale := math.Pow(10, r.Range(-2, 3))
 	ox, oy := r.Range(-5, 5)*scale, r.Range(-5, 5)*scale
